@@ -350,6 +350,8 @@ pub struct ProxyState {
     held: HashMap<String, Vec<(u32, Vec<u8>, String)>>, // dir -> (remaining, datagram, label)
     next_frag_rseq: u64,
     rseq_shift: HashMap<String, u64>,
+    /// re-packing in progress per direction: (records still to collect, coalesce?, collected records)
+    merging: HashMap<String, (usize, bool, Vec<Rec>)>,
     pub adversary: Option<Adversary>,
     /// randoms as last delivered towards the server (ClientHello) / the client (ServerHello)
     cr_seen: Vec<u8>,
@@ -382,6 +384,7 @@ impl ProxyState {
             held: HashMap::new(),
             next_frag_rseq: 0x4000_0000,
             rseq_shift: HashMap::new(),
+            merging: HashMap::new(),
             adversary: None,
             cr_seen: Vec::new(),
             sr_seen: Vec::new(),
@@ -848,6 +851,8 @@ impl ProxyState {
         let mut wire = Vec::new();
         for (bytes, label, o, made) in stage1 {
             let bytes = if made { bytes } else { self.apply_seq_shift(dir, &bytes) };
+            #[allow(unused_mut)]
+            let mut bytes = bytes;
             if self.takeover_armed && dir == "S>C" && !made && !label.starts_with("SHD") && self.seen_s.values().any(|m| m[0] == 14) {
                 // the adversary has taken the server's place: nothing more from the genuine server reaches the client
                 net_event("mdrop", json!({"dir": dir, "msg": label, "ord": o}));
@@ -856,6 +861,48 @@ impl ProxyState {
             if self.take_op(dir, &label, o, &["drop"]).is_some() {
                 net_event("drop", json!({"dir": dir, "msg": label, "ord": o}));
                 continue;
+            }
+            // legal re-packing (RFC 6347 4.2.3 / 4.1.1): consecutive plaintext handshake records as ONE record holding
+            // all their handshake messages (merge), or as one datagram holding the records (coalesce)
+            let plain_hs = {
+                let r = parse_records(&bytes);
+                r.len() == 1 && r[0].ctype == 22 && r[0].epoch == 0
+            };
+            let mut bytes = bytes;
+            if let Some((left, coal, mut recs)) = self.merging.remove(dir) {
+                if plain_hs {
+                    recs.extend(parse_records(&bytes));
+                    if left > 1 {
+                        self.merging.insert(dir.to_string(), (left - 1, coal, recs));
+                        continue;
+                    }
+                    bytes = if coal {
+                        recs.iter().flat_map(|r| encode_record_raw(r)).collect()
+                    } else {
+                        let body: Vec<u8> = recs.iter().flat_map(|r| r.body.clone()).collect();
+                        encode_record(&Rec { ver: recs[0].ver, ctype: 22, epoch: 0, rseq: recs[0].rseq, body })
+                    };
+                    net_event("repacked", json!({"dir": dir, "kind": if coal { "coalesce" } else { "merge" }, "n": recs.len(), "recs": describe(&bytes)}));
+                } else {
+                    // something else follows: what was collected goes out as it was
+                    for r in &recs {
+                        let b = encode_record_raw(r);
+                        net_event("tx", json!({"dir": dir, "msg": rec_label(r), "ord": 0, "dup": false, "recs": describe(&b)}));
+                        if dir == "S>C" {
+                            self.note_plain(dir, &b);
+                        }
+                        wire.push(b);
+                    }
+                }
+            } else if plain_hs {
+                if let Some(op) = self.take_op(dir, &label, o, &["merge", "coalesce"]) {
+                    let n = op.arg["n"].as_u64().unwrap_or(2) as usize;
+                    net_event("repack", json!({"dir": dir, "msg": label, "ord": o, "kind": op.kind, "n": n}));
+                    if n > 1 {
+                        self.merging.insert(dir.to_string(), (n - 1, op.kind == "coalesce", parse_records(&bytes)));
+                        continue;
+                    }
+                }
             }
             if let Some(op) = self.take_op(dir, &label, o, &["hold"]) {
                 let k = op.arg["k"].as_u64().unwrap_or(1) as u32;
